@@ -6,14 +6,22 @@ use serde::{Deserialize, Serialize};
 use std::collections::HashMap;
 
 #[derive(Serialize, Deserialize, PartialEq)]
-pub struct ResourcesState(HashMap<String, String>);
+pub struct ResourcesState(HashMap<CmdKey, String>);
+
+/// A command is identified by the directory it runs in as well as by its text:
+/// the same text declared in two project directories denotes two different resources.
+type CmdKey = (std::path::PathBuf, String);
+
+fn cmd_key(resource: &CmdResource) -> CmdKey {
+    (resource.dir.clone().into(), resource.cmd.clone())
+}
 
 impl ResourcesState {
     pub async fn current(cmds: &[CmdResource]) -> Result<Self> {
         let futures = cmds.iter().map(|resource| async move {
             get_cmd_stdout(resource)
                 .await
-                .map(|stdout| (resource.cmd.to_string(), stdout))
+                .map(|stdout| (cmd_key(resource), stdout))
         });
 
         let vec = future::try_join_all(futures).await?;
@@ -23,7 +31,7 @@ impl ResourcesState {
     pub async fn eq_current_state(&self, cmds: &[CmdResource]) -> bool {
         let futures = cmds.iter().cloned().map(|resource| async move {
             match get_cmd_stdout(&resource).await {
-                Ok(stdout) => self.0.get(&resource.cmd) == Some(&stdout),
+                Ok(stdout) => self.0.get(&cmd_key(&resource)) == Some(&stdout),
                 Err(e) => {
                     log::error!("Command {} failed to execute: {}", resource.cmd, e);
                     false
